@@ -1,0 +1,84 @@
+//go:build verif
+
+// Package verifhook provides verification-only instrumentation points.
+// Everything here is compiled in only with the `verif` build tag; without the
+// tag every function is an empty, inlinable no-op (see hook_off.go).
+package verifhook
+
+import (
+	"os"
+	"sync/atomic"
+)
+
+// Enabled reports whether the package was built with the verif tag.
+const Enabled = true
+
+type (
+	// YieldFunc is called at a named decision point; it may block (scheduler gate).
+	YieldFunc func(point string, args ...any)
+	// TraceFunc is called at a linearization point with the event name and key/value pairs.
+	TraceFunc func(event string, kv ...any)
+	// FileOpFunc is called before a storage file operation. A non-nil error is
+	// returned to the caller instead of performing the operation (the hook may
+	// have performed part of it on f itself to simulate a short write).
+	FileOpFunc func(kind string, f *os.File, path string, data []byte) error
+)
+
+var (
+	yieldFn  atomic.Pointer[YieldFunc]
+	traceFn  atomic.Pointer[TraceFunc]
+	fileOpFn atomic.Pointer[FileOpFunc]
+)
+
+// SetYield installs (or, with nil, removes) the yield hook.
+func SetYield(f YieldFunc) {
+	if f == nil {
+		yieldFn.Store(nil)
+		return
+	}
+	yieldFn.Store(&f)
+}
+
+// SetTrace installs (or, with nil, removes) the trace hook.
+func SetTrace(f TraceFunc) {
+	if f == nil {
+		traceFn.Store(nil)
+		return
+	}
+	traceFn.Store(&f)
+}
+
+// SetFileOp installs (or, with nil, removes) the file operation hook.
+func SetFileOp(f FileOpFunc) {
+	if f == nil {
+		fileOpFn.Store(nil)
+		return
+	}
+	fileOpFn.Store(&f)
+}
+
+// Yield marks a decision point.
+func Yield(point string, args ...any) {
+	if f := yieldFn.Load(); f != nil {
+		(*f)(point, args...)
+	}
+}
+
+// Trace records an event at a linearization point.
+func Trace(event string, kv ...any) {
+	if f := traceFn.Load(); f != nil {
+		(*f)(event, kv...)
+	}
+}
+
+// Tracing reports whether a trace hook is installed (lets call sites skip
+// building arguments).
+func Tracing() bool { return traceFn.Load() != nil }
+
+// FileOp announces a storage file operation that is about to be performed.
+func FileOp(kind string, f *os.File, path string, data []byte) error {
+	if fn := fileOpFn.Load(); fn != nil {
+		return (*fn)(kind, f, path, data)
+	}
+	return nil
+}
